@@ -31,7 +31,8 @@ TOL = 1e-6
 def rot_near():
     """rotation spec whose angle is biased to within 1e-9 of 0 / pi"""
     ang = st.one_of(gens.rot_angles(-15), gens.logmag(-15, -9), gens.logmag(-15, -9).map(lambda d: PI - d), st.sampled_from([0.0, PI]))
-    return st.fixed_dictionaries({"axis": gens.direction3(), "angle": ang, "via": st.sampled_from(["rod", "quat"])})
+    generic = st.fixed_dictionaries({"axis": gens.direction3(), "angle": ang, "via": st.sampled_from(["rod", "quat"])})
+    return st.one_of(generic, generic, generic, generic, generic, gens.cube_rot())      # + exact axis relabellings (tied / zero matrix entries)
 
 
 def pose():
@@ -59,7 +60,7 @@ def tree(depth):
 
     def ext(ch):
         return st.one_of(st.tuples(st.just("mul"), ch, ch).map(list), st.tuples(st.just("mul"), ch, ch).map(list),
-                         st.tuples(st.just("inv"), ch).map(list))
+                         st.tuples(st.just("inv"), ch).map(list), st.tuples(st.just("pow"), ch, st.integers(-8, 8)).map(list))
     return st.recursive(leaf, ext, max_leaves=2 ** depth // 2)
 
 
@@ -175,6 +176,20 @@ def _round(case):
         ok, q2 = c.lib("UQ(SO3)", lambda: L.UnitQuaternion(L.SO3(TX[:3, :3].copy(), check=False)))
         if ok:
             c.eq("UQ(SO3)", m_of(q2), refs.rt(TX[:3, :3], np.zeros(3)), TOL)
+        # the library's own == between the same rotation obtained by two routes (matrix -> quaternion, axis-angle constructor):
+        # True when the two quaternions agree up to sign to a few ulp, False when they differ by more than 1e-6
+        spec = case["X"]["rot"]
+        ok, qa = c.lib("UQ.AngVec", lambda: L.UnitQuaternion.AngVec(spec["angle"], list(spec["axis"])))
+        if ok:
+            v1, v2 = np.asarray(q.vec, dtype=float), np.asarray(qa.vec, dtype=float)
+            dq = min(float(np.linalg.norm(v1 - v2)), float(np.linalg.norm(v1 + v2)))
+            oke, e = c.lib("UQ==UQ", lambda: q == qa)
+            okn, ne = c.lib("UQ!=UQ", lambda: q != qa)
+            if dq <= 1e-15:
+                if oke:
+                    c.true("==/same_rotation_two_routes", e is True or e == True, "UnitQuaternion(R) == UnitQuaternion.AngVec(..) is %r although they differ by %.2g" % (e, dq), dq=dq)  # noqa
+                if okn:
+                    c.true("!=/same_rotation_two_routes", ne is False or ne == False, "UnitQuaternion(R) != UnitQuaternion.AngVec(..) is %r although they differ by %.2g" % (ne, dq), dq=dq)  # noqa
         ok, q3 = c.lib("UQ(R)", lambda: L.UnitQuaternion(TX[:3, :3].copy()))
         if ok:
             c.eq("UQ(R)", m_of(q3), refs.rt(TX[:3, :3], np.zeros(3)), TOL)
@@ -359,6 +374,14 @@ def _tree(case):
             M = Ts[t[1]]
         elif t[0] == "mul":
             M = ev_ref(t[1]) @ ev_ref(t[2])
+        elif t[0] == "pow":
+            A = ev_ref(t[1])
+            M = np.eye(4)
+            for _ in range(abs(t[2])):
+                M = M @ A
+                inter.append(M)
+            if t[2] < 0:
+                M = inv4(M)
         else:
             M = inv4(ev_ref(t[1]))
         inter.append(M)
@@ -370,6 +393,8 @@ def _tree(case):
         if t[0] == "mul":
             return ev_lib(t[1], leaves, noinv) * ev_lib(t[2], leaves, noinv)
         x = ev_lib(t[1], leaves, noinv)
+        if t[0] == "pow":
+            return x ** t[2]
         return x.inv()
 
     want = ev_ref(case["tree"])
@@ -377,9 +402,12 @@ def _tree(case):
     if sc > 1e12:
         return c.out
     has_inv = "inv" in str(case["tree"])
+    has_pow = "pow" in str(case["tree"])
     for rep in REPS:
         if rep == "UnitDualQuaternion" and has_inv:
             continue
+        if has_pow and rep not in ("SO3", "SE3", "UnitQuaternion"):
+            continue          # integer powers exist for the matrix classes and quaternions only
         ok, leaves = c.lib("leaves:" + rep, lambda: [to_rep(rep, T) for T in Ts])
         if not ok:
             continue
